@@ -57,7 +57,43 @@ NEXT = C.Kind("pretty_next_run", impl=_impl,
               model=lambda a: f"pretty {Z.zone_token(a[0], a[1])} {int(a[1] // 1)} {C.ut(a[2])} {','.join(map(str, a[3])) or '-'}",
               judge=_judge, classify=lambda a, o: (C.un_ut(o[3:]).split(" at ")[0] if o.startswith("ok ") else o)[:16],
               nontrivial=_nt)
-KINDS = {"pretty_next_run": NEXT}
+
+
+def _impl_nodays(a):
+    """the days argument left out altogether (its default): "today" """
+    from aioswitcher.schedule import tools
+    zone, now, start = a
+
+    def f():
+        try:
+            return "ok " + C.ut(tools.pretty_next_run(start))
+        except Exception as e:  # noqa
+            return "raise " + C.exc_name(e)
+    return Z.under(zone, now, f)
+
+
+NODAYS = C.Kind("pretty_next_run-without-days", impl=_impl_nodays,
+                model=lambda a: f"pretty {Z.zone_token(a[0], a[1])} {int(a[1] // 1)} {C.ut(a[2])} -",
+                judge=lambda a, o: _judge((a[0], a[1], a[2], []), o), classify=lambda a, o: "no-days", nontrivial=lambda a, o: (a[0], a[2]))
+
+import props.c10 as _c10  # noqa: E402  (the text a LISTED schedule displays is this function's)
+
+
+def _displays_only(out):
+    if not out.startswith("ok ") or out[3:] == "-":
+        return out.split(" ", 1)[0]
+    rows = []
+    for row in out[3:].split(";"):
+        f = _c10._fields(row)
+        rows.append((f[0], f[3], f[6]))
+    return "ok " + ";".join(",".join(r) for r in sorted(rows))
+
+
+LISTED = C.Kind("listed-display", impl=_c10.LIST.impl, model=_c10.LIST.model,
+                judge=lambda a, o: [j for j in _c10.LIST.judge(a, o) if j[0].startswith("c13 ")],
+                compare=lambda m, i: _displays_only(m) == _displays_only(i),
+                classify=_c10.LIST.classify, nontrivial=lambda a, o: (a["zone"], int(a["now"] // 3600), o[:40]), shrink=_c10.LIST.shrink)
+KINDS = {"pretty_next_run": NEXT, "pretty_next_run-without-days": NODAYS, "listed-display": LISTED}
 
 
 def _cases(rng, full):
@@ -126,6 +162,20 @@ def streams(ctx):
     if ctx.quick:
         dst = rng.sample(dst, min(len(dst), 900))
     ctx.run_cases(NEXT, "weeks-with-a-clock-change", dst, exhaustive=False, sample_every=211)
+    # schedules listed by a device, the SAME reply polled again hours and days later (the text follows the clock, not the first poll),
+    # their day sets changed by the caller in between; and in between those, the function called without a days argument
+    polled, nod = [], []
+    for zone in ("UTC", "Asia/Jerusalem", "America/New_York", "Asia/Kathmandu"):
+        for now in Z.interesting_instants(rng, zone, ctx.n(5, 40)):
+            recs = _c10.gen_recs(rng, now)
+            reply = _c10.build_reply(recs, rng)
+            for later in (0, 3 * 3600 + 60, 86400 + 7 * 3600, 3 * 86400 - 1800):
+                polled.append({"zone": zone, "now": float(now + later), "recs": recs, "reply": reply})
+                nod.append((zone, float(now + later), "%02d:%02d" % divmod(rng.randrange(1440), 60)))
+    ctx.run_cases(LISTED, "the-same-reply-polled-again-later", polled, exhaustive=False, sample_every=max(1, len(polled) // 2))
+    ctx.run_cases(NODAYS, "days-argument-left-out", nod, exhaustive=False, sample_every=max(1, len(nod) // 2))
+    ctx.run_cases(LISTED, "listed-again-after-the-caller-changed-day-sets", polled[: len(polled) // 2], exhaustive=False)
+    ctx.run_cases(NODAYS, "days-argument-left-out-again", nod[: len(nod) // 2], exhaustive=False)
     bad = [("UTC", 1.75e9, s, [0]) for s in ("7:5", "24:00", "x", "", "12:60", "1200")]
     ctx.run_cases(NEXT, "malformed-start", bad, exhaustive=False)
 
